@@ -366,7 +366,7 @@ def _short(x, n=300):
 
 
 def judge_stream(run, name, imports, casetype, inputs, results, term_fn, clauses, trivial_tags,
-                 rule, key_fn=None, judge="judge_all", shard=400, dist_extra=None, vkey=None):
+                 rule, key_fn=None, judge="judge_all", shard=400, dist_extra=None, vkey=None, confirm=None):
     """Evaluate the Coq judge over (input, implementation result) pairs.
 
     severity 2 (monitor fails on the implementation's observation) -> violation with the case;
@@ -376,6 +376,27 @@ def judge_stream(run, name, imports, casetype, inputs, results, term_fn, clauses
     flagged, tags, errors, files = coq_eval(run.rundir, name, imports, casetype, terms, judge, shard=shard)
     run.checker_cmds.append("coqc %s_k.v (vm_compute of %s over the implementation's observations)" % (name, judge))
     run.oblige("%s: case evaluation inside Coq completed" % name, not errors, "\n".join(errors))
+    if confirm and flagged and not errors:
+        # Streams whose cases run in real time on their own server: what is flagged is confirmed by running that case once more before it is reported
+        # (a stalled machine must not look like a defect); what does not reproduce is recorded in the evidence, not reported.
+        idxs = sorted({f[0] for f in flagged})[:12]
+        try:
+            again = confirm(idxs)
+        except Exception as ex:
+            again = None
+            run.cov.setdefault("confirm_errors", []).append("%s: %s" % (name, ex))
+        if again and len(again) == len(idxs) and all(a is not None for a in again):
+            t2 = [term_fn(inputs[i], a) for i, a in zip(idxs, again)]
+            f2, _, e2, _ = coq_eval(run.rundir, name + "_again", imports, casetype, t2, judge, shard=shard)
+            still = {idxs[k] for k, sv, cl in f2} if not e2 else set(idxs)
+            gone = [i for i in idxs if i not in still]
+            if gone:
+                run.cov.setdefault("flagged_once_but_not_reproduced", []).append(
+                    {"stream": name, "cases": [{"input": _short(inputs[i], 300), "first_run_clause": [c for j, sv, c in flagged if j == i]} for i in gone][:5]})
+                flagged = [f for f in flagged if f[0] not in gone]
+                for i, a in zip(idxs, again):
+                    if i in still:
+                        results[i] = a
     mism = [f for f in flagged if f[1] == 1]
     viol = [f for f in flagged if f[1] == 2]
     knownkeys = {k["key"] for k in known_findings()["known"] if k["property"] == run.pid}
